@@ -35,6 +35,9 @@ def run(ctx):
     # replayer counts operator new inside each consumer access; the specification fixes the total at 0
     from checks import c13
     c13.alloc_replay(ctx)
+    # frames under a non-heap storage policy (Storage.tla slice: warm-up sequences of stack / reusable / mtsafe storages)
+    from checks import c19
+    c19.alloc_replay(ctx)
     # carrying up to three ready coroutines in a suspend point: SuspendPoint.tla's InlineNoAlloc, replayed
     try:
         from checks import c06
